@@ -82,6 +82,64 @@ CHECKS = {
         "thorough": {"gen": [G("MC_C12", "MC_C13_quick.cfg")]},
         "require_ops": ["laxf.try_define_map_arrow", "laxf.map_arrow_witness"],
     },
+    "C14": {
+        "quick": {"gen": [G("MC_C14", "MC_C14_quick.cfg")]},
+        "thorough": {"gen": [G("MC_C14", "MC_C14_quick.cfg")]},
+        "require_ops": ["optic.map_arrow", "optic.map_adapted", "optic.eval_adapted", "optic.laws", "laxf.optic_map_arrow", "laxf.optic_map_adapted"],
+    },
+    "C19": {
+        "quick": {"gen": [G("MC_C19", "MC_C19_quick.cfg")]},
+        "thorough": {"gen": [G("MC_C19", "MC_C19_quick.cfg")]},
+        "require_ops": ["var.script", "var.forget", "var.forget_monogamous", "var.forget_eval"],
+    },
+    "C20": {
+        "quick": {"advseeds": 4, "gen": [
+            G("MC_C07", "MC_C07_small.cfg", backends=["adv"]),
+            G("MC_C01", "MC_C01_small.cfg", backends=["adv"]),
+            G("MC_C04", "MC_C04_small.cfg", backends=["adv"]),
+            G("MC_C12", "MC_C12_small.cfg", backends=["adv"]),
+            G("MC_C14", "MC_C14_small.cfg", backends=["adv"]),
+            G("MC_C15", "MC_C15_small.cfg", backends=["adv"]),
+            G("MC_C16", "MC_C16_small.cfg", backends=["adv"]),
+            G("MC_C18", "MC_C18_small.cfg", backends=["adv"]),
+        ]},
+        "thorough": {"advseeds": 16, "gen": [
+            G("MC_C07", "MC_C07_quick.cfg", backends=["adv"]),
+            G("MC_C01", "MC_C01_quick.cfg", backends=["adv"]),
+            G("MC_C04", "MC_C04_quick.cfg", backends=["adv"]),
+            G("MC_C12", "MC_C12_quick.cfg", backends=["adv"]),
+            G("MC_C14", "MC_C14_quick.cfg", backends=["adv"]),
+            G("MC_C15", "MC_C15_small.cfg", backends=["adv"]),
+            G("MC_C16", "MC_C16_quick.cfg", backends=["adv"]),
+            G("MC_C18", "MC_C18_small.cfg", backends=["adv"]),
+        ]},
+        "require_ops": ["arr.argsort", "arr.connected_components", "arr.sparse_bincount", "arr.scatter", "strict.compose", "functor.map_arrow", "optic.eval_adapted", "strict.layer", "strict.eval", "arrow.is_convex_subgraph", "strict.is_monogamous"],
+    },
+    "C05": {
+        "quick": {"gen": [
+            G("MC_C05", "MC_C05_quick.cfg"),
+            G("MC_C06", "MC_C06_quick.cfg"),
+            G("MC_C08", "MC_C08_quick.cfg"),
+            G("MC_C01", "MC_C01_small.cfg"),
+            G("MC_C02", "MC_C02_small.cfg"),
+            G("MC_C04", "MC_C04_small.cfg"),
+            G("MC_C10", "MC_C10_small.cfg"),
+            G("MC_C12", "MC_C12_small.cfg"),
+            G("MC_C14", "MC_C14_small.cfg"),
+        ]},
+        "thorough": {"gen": [
+            G("MC_C05", "MC_C05_quick.cfg"),
+            G("MC_C06", "MC_C06_quick.cfg"),
+            G("MC_C08", "MC_C08_quick.cfg"),
+            G("MC_C01", "MC_C01_quick.cfg"),
+            G("MC_C02", "MC_C02_quick.cfg"),
+            G("MC_C04", "MC_C04_quick.cfg"),
+            G("MC_C10", "MC_C10_quick.cfg"),
+            G("MC_C12", "MC_C12_quick.cfg"),
+            G("MC_C14", "MC_C14_quick.cfg"),
+        ]},
+        "require_ops": ["hyper.new", "strict.new", "ff.new", "ic.new_ff", "ops.new", "strict.identity", "strict.twist", "strict.singleton", "strict.tensor_operations", "strict.compose", "strict.tensor", "functor.map_arrow", "optic.map_arrow", "lax.to_strict", "lax.from_strict"],
+    },
     "C01": {
         "quick": {"gen": [G("MC_C01", "MC_C01_quick.cfg")]},
         "thorough": {"gen": [G("MC_C01", "MC_C01_quick.cfg")]},
